@@ -122,6 +122,19 @@ func (s *AddrScenario) Setup(k *sim.Kernel) {
 				if err == nil {
 					rec(i, "shutdown", svc.Shutdown())
 				}
+			case "rebind":
+				// Bind twice without a Shutdown in between: error or success, and the
+				// service stays usable afterwards (the first listener may leak; it is
+				// closed here through GetListener so that later steps find the address free)
+				err := svc.Bind(ctx, st.Addr)
+				rec(i, "bind", err)
+				first, _ := svc.GetListener()
+				err2 := svc.Bind(ctx, st.Addr)
+				rec(i, "rebind", err2)
+				rec(i, "shutdown", svc.Shutdown())
+				if err == nil && first != nil {
+					first.Close()
+				}
 			case "serve":
 				err := svc.Bind(ctx, st.Addr)
 				rec(i, "bind", err)
@@ -363,7 +376,7 @@ func genC19(seed uint64, tier string) Scenario {
 			// filesystem sockets belong to the real-kernel leg
 			a = "unix:@" + strings.TrimPrefix(a, "unix:")
 		}
-		s.Steps = append(s.Steps, AddrStep{Addr: a, Mode: g.Pick("bind", "bind", "serve", "listen", "held")})
+		s.Steps = append(s.Steps, AddrStep{Addr: a, Mode: g.Pick("bind", "bind", "serve", "listen", "held", "rebind")})
 	}
 	return s
 }
